@@ -124,4 +124,60 @@ theorem get_object_preflight_uses_version : getObjectHeadOptions ≠ "nil" := by
 /-- Negation witness (current source): AppendObject is not implemented by the client backend. -/
 theorem append_not_implemented : ("AppendObject", "always") ∈ notImplemented := by decide
 
+/-! ### Request translation of copies -/
+
+/-- The metadata and tagging directives are forwarded exactly when the caller asks for a replacement —
+not only when the replacement set is non-empty — so "replace with the empty set" reaches the endpoint. -/
+theorem copy_directives_forwarded_whenever_requested :
+    ("MetadataDirective", "opts.ReplaceMetadata") ∈ copyObjectGuards ∧
+    ("TaggingDirective", "opts.ReplaceTags") ∈ copyObjectGuards ∧
+    ("Tagging", "opts.ReplaceTags") ∈ copyObjectGuards := by decide
+
+/-- The source version id is appended to `x-amz-copy-source` whenever one is given (the literal
+`null` included), by `CopyObject` and `UploadPartCopy` alike. -/
+theorem copy_source_version_always_forwarded :
+    copySourceVersionGuard = "sourceVersionID != nil" ∧
+    ("CopyObject", "opts.SourceVersionID") ∈ copySourceVersionArgs ∧
+    ("UploadPartCopy", "opts.SourceVersionID") ∈ copySourceVersionArgs := by decide
+
+/-- What the reference (the model of `S3ClientStorage ∘ server` is the storage model itself) says about
+the two corners: the copy source addressed as version `null` is the null version of the key, whatever
+the current version is … -/
+theorem copy_source_null_is_the_null_version (bk : Bucket) (k : String) (r : Row)
+    (h : resolve bk k (some none) = .ok r) : r.vid = none ∧ r.key = k := by
+  have h' : (match rowByVid bk k none with
+      | none => Except.error Err.noSuchKey
+      | some r => if r.dm then Except.error Err.methodNotAllowed else Except.ok r) = Except.ok r := h
+  unfold rowByVid at h'
+  split at h'
+  · cases h'
+  · rename_i r' hf
+    have hp := List.find?_some hf
+    simp only [Bool.and_eq_true, beq_iff_eq] at hp
+    split at h'
+    · cases h'
+    · injection h' with h2; subst h2; exact ⟨hp.2, hp.1⟩
+
+def outTags : Out → Option Pairs
+  | .tags t => some t
+  | _ => none
+
+def outBody : Out → Option Bytes
+  | .obj v => some v.body
+  | _ => none
+
+/-- … and a copy that replaces the tags with the empty set leaves the destination without tags, and a
+copy from `null` under a newer version copies the pre-versioning bytes (two concrete histories, the
+ones the directed cases replay on both sides). -/
+theorem spec_copy_replace_with_empty_tags :
+    ((S3.run Quirks.code {} [.mkb "b", .put "b" "k" [1] { tags := [("t", "v")] } false .none,
+        .copy "b" "k" none "b" "k2" false true {}, .getTags "b" "k2" none]).2.getLast?.bind outTags) = some [] := by
+  decide
+
+theorem spec_copy_from_null_under_newer_version :
+    ((S3.run Quirks.code {} [.mkb "b", .put "b" "k" [1] {} false .none, .setVer "b" .enabled,
+        .put "b" "k" [2] {} false .none, .copy "b" "k" (some none) "b" "k2" false false {},
+        .get "b" "k2" none]).2.getLast?.bind outBody) = some [1] := by
+  decide
+
 end Pithos.C38
